@@ -60,12 +60,27 @@ def r161(ctx, wr):
     ctx.floor('R16.1', 'functions that open a file for in-place update', len(sites), 1)
     for q, f, c, mode in sites:
         if q == 'write_simple':
-            # reasoned exemption (one named symbol): the append writer starts the new footer at or after
-            # the old footer start and re-serialises the old row-group list plus the new ones; on all 25
-            # foreign fixtures re-serialisation is size-preserving, so the file can only grow.  The one
-            # way it could shrink is known finding K10a (field id 14 dropped) with zero rows appended.
-            ctx.note('R16.1 exemption writer.write_simple.write_to_file: append only adds row groups between the old '
-                     'footer start and the new footer; no truncate required (see K10a for the residual case)')
+            # the append writer starts the new footer at the old footer start and writes the new row groups, the
+            # re-serialised footer, its length and the magic.  What it writes can be SHORTER than the footer it
+            # replaces (key-value entries removed on the handle before the append; K10a with nothing appended): on the
+            # append path the closing magic is followed by truncate().  (The design round exempted this writer -
+            # "the file can only grow" - which a hunting report refuted with a witness; repaired in 4192395.)
+            g = wr.func('write_simple.write_to_file')
+            trys = [t for t in iter_child_stmts(g.body) if isinstance(t, ast.Try)]
+            okt, dt = False, 'no try block'
+            if trys:
+                body = trys[0].body
+                mk = [i for i, st in enumerate(body) if norm(st) == 'f.write(MARKER)']
+                dt = 'closing magic not found in the try body'
+                if mk:
+                    after = body[mk[-1] + 1:]
+                    dt = 'after the closing magic: %s' % [norm(x)[:40] for x in after]
+                    for x in after:
+                        if norm(x) == 'f.truncate()':
+                            okt = True
+                        if isinstance(x, ast.If) and norm(x.test) == 'append' and any(norm(y) == 'f.truncate()' for y in x.body):
+                            okt = True
+            ctx.ob('R16.1', 'writer.write_to_file:append-ends-with-truncate', okt, dt, wr.loc(g))
             continue
         else:
             target = f
@@ -352,6 +367,19 @@ def r168(ctx, wr, rule='R16.8'):
                            isinstance(kw, ast.Constant) and kw.value is True,
                            '`%s`: user keys and values are arbitrary bytes; a strict decode raises on the first non-UTF-8 one' % norm(c), m.loc(c))
     ctx.stat('%s decodes of key-value text' % rule, n)
+    # the decoder itself: it hands its argument back undecoded only when that argument is text already, or when the
+    # decode failed and the caller asked for tolerance - never because the value is empty (b'' must become '')
+    ut = ctx.repo['util']
+    es = ut.func('ensure_str')
+    arg = es.args.args[0].arg
+    cfg2 = CFG(es)
+    for r in walk_no_nested(es):
+        if isinstance(r, ast.Return) and isinstance(r.value, ast.Name) and r.value.id == arg:
+            in_handler = any(any(r is y for y in ast.walk(h)) for t in ast.walk(es) if isinstance(t, ast.Try) for h in t.handlers)
+            tests = [e.test for e, fld in cfg2.enclosing_tests(r) if isinstance(e, ast.If) and fld == 'body']
+            typed = bool(tests) and all(norm(t) == 'isinstance(%s, str)' % arg for t in tests)
+            ctx.ob(rule, 'util.ensure_str:argument-returned-undecoded-only-if-text-or-undecodable:%s' % ('handler' if in_handler else 'early'),
+                   in_handler or typed, 'returned as it is under %s' % ([norm(t) for t in tests] or 'no test'), ut.loc(r))
 
 
 def r169(ctx, rule='R16.9'):
